@@ -30,7 +30,8 @@ REQUIRED = ["contract:Assertion.set_p_values", "contract:Audit.summarize_status"
             "assertions_recomputed", "status:complete", "status:incomplete", "mixed_confirmed_and_unconfirmed",
             "p_equal_to_limit_confirmed", "second_call_same_length_different_data", "contest_meets_neighbours_limit_not_own",
             "params_silent", "params_rejected", "proved_sticky_observed",
-            "test_objects_hold_another_bound_before_call", "tests_configured_with_random_order_false"]
+            "test_objects_hold_another_bound_before_call", "tests_configured_with_random_order_false",
+            "mixed_audit_polling_contest_among_comparison_contests"]
 ASSUMPTIONS = ["samples have at least one observation per assertion", "summarize_status prints: stdout is swallowed, not parsed"]
 N_CASES = {"quick": 9600, "thorough": 80000}
 
@@ -230,6 +231,17 @@ def run_case(es, rec):
                     setattr(con, attr, keep)
                     con.winner = keepw
             break
+    if sim.use_style and len(sim.contests) >= 2 and rng.random() < 0.25:
+        # a mixed audit: one contest is audited by polling (its data are EVERY sampled manual record, whatever the CVRs
+        # list) while the others are compared card by card in the same call; its population is the whole stratum
+        cid = rng.choice(sorted(sim.contests))
+        con = sim.contests[cid]
+        con.audit_type = sim.L["Audit"].AUDIT_TYPE.POLLING
+        con.cards = len(sim.cvr_list)
+        for asn in con.assertions.values():
+            asn.test.N = len(sim.cvr_list)
+            asn.test.u = asn.assorter.upper_bound
+        rec.count("mixed_audit_polling_contest_among_comparison_contests")
     sim.assign_sample_nums()
     lims = set(c["risk_limit"] for c in es["contests"].values())
     seen = set()
